@@ -1,0 +1,9 @@
+//go:build verif
+
+package objectcore
+
+// VerifSplitIntString exports splitIntString for the verification harness.
+func VerifSplitIntString(s string) (bool, string, error) { return splitIntString(s) }
+
+// VerifCompareIntStrings exports compareIntStrings for the verification harness.
+func VerifCompareIntStrings(a, b string) (int, error) { return compareIntStrings(a, b) }
